@@ -1,8 +1,8 @@
 package rules
 
 import (
-	"go/token"
 	"fmt"
+	"go/token"
 	"go/types"
 	"sort"
 
@@ -32,6 +32,9 @@ func runC12(c *core.Ctx, r *core.Reporter) {
 	c12remerge(c, r)
 	c12prec(c, r)
 	c12copy(c, r)
+	c12shared(c, r)
+	c12unbound(c, r)
+	c12slotkey(c, r)
 }
 
 // c12copy: the precedence list is read where it is needed, never cached somewhere else.
@@ -276,6 +279,15 @@ func c12remerge(c *core.Ctx, r *core.Reporter) {
 					if f, ok := loadOfRecvField(x.Map); ok {
 						accum[f] = append(accum[f], x)
 					}
+				case *ssa.Call:
+					// a helper method of the same object that accumulates into one of its fields (addInitArg)
+					cal := x.Call.StaticCallee()
+					if cal == nil || cal.Blocks == nil || cal.Signature.Recv() == nil || len(x.Call.Args) == 0 || x.Call.Args[0] != ssa.Value(recv) {
+						continue
+					}
+					for _, f := range helperAccumulates(cal) {
+						accum[f] = append(accum[f], x)
+					}
 				}
 			}
 		}
@@ -340,4 +352,48 @@ func c12prec(c *core.Ctx, r *core.Reporter) {
 			}
 		}
 	}
+}
+
+// helperAccumulates: the receiver fields a method stores map entries into or appends to.
+func helperAccumulates(fn *ssa.Function) []string {
+	if len(fn.Params) == 0 {
+		return nil
+	}
+	recv := fn.Params[0]
+	seen := map[string]bool{}
+	fieldOf := func(v ssa.Value) (string, bool) {
+		u, ok := v.(*ssa.UnOp)
+		if !ok {
+			return "", false
+		}
+		fa, ok := u.X.(*ssa.FieldAddr)
+		if !ok || fa.X != ssa.Value(recv) {
+			return "", false
+		}
+		return fieldName(fa), true
+	}
+	for _, b := range fn.Blocks {
+		for _, in := range b.Instrs {
+			switch x := in.(type) {
+			case *ssa.MapUpdate:
+				if f, ok := fieldOf(x.Map); ok {
+					seen[f] = true
+				}
+			case *ssa.Store:
+				if fa, ok := x.Addr.(*ssa.FieldAddr); ok && fa.X == ssa.Value(recv) {
+					if call, ok := x.Val.(*ssa.Call); ok {
+						if bi, ok := call.Call.Value.(*ssa.Builtin); ok && bi.Name() == "append" {
+							seen[fieldName(fa)] = true
+						}
+					}
+				}
+			}
+		}
+	}
+	var out []string
+	for f := range seen {
+		out = append(out, f)
+	}
+	sort.Strings(out)
+	return out
 }
